@@ -132,6 +132,13 @@ def run(tier, replay=None):
     for s in ['"abc', '"abc\\', '"abc\\"', "1 ; note", ";", '"', '\\', "(((", ")))", "[[[", "{{{", "{\n{\n{\n", "}\n}", "f(", "f(1,", "a[", "a[1:", "if", "if 1", "for", "for i", "for i <-", "while", "return", "yield", "->", "() ->", "(a, ) -> 1",
               "", "\n", "\n\n\n", " ", "\t", "\r\n", "1\r\n2", "\ufeff1", "a = ", "= 1", "1 2 3", "1\n2", "{ 1 }", "{\n1\n}", "{\n1\n2\n}\n", "if true {\n1\n} else {\n2\n}", "x = (a) -> (b) -> (c) -> a"]:
         add(s, "unterminated / unbalanced / edge")
+    # every kind of rejected input where there is nothing before it: as the whole input, as its first line, after a line break, after
+    # blanks, after a comment, inside a block (errors whose report looks at the token before the culprit)
+    bads = ["(x, x) -> x", "(n, n) -> n + 1", "((x, x) -> x)(1)", "[(a, a) -> 1]", "(a, b, a) -> {\na\n}", "(x, x) -> {\nx\n}", ") 1", "] 1", "} 1", ", 1", ": 1", "= 1", "-> 1", "<- 1", "else 1",
+            "1 +", "1 2", "f(", "9999999999999999999999", "9999999999999999999999 + 1", "1.5.5", "$", "\"abc", "true = false", "if", "for", "for i", "return )", "yield ]", "#", "!", "- -", "x[", "x[]", "x[:", "x[1:]", "x[:1]"]
+    for b in bads:
+        for frame in ("%s", "%s\n", "\n%s", "  %s", "; note\n%s", "%s\nwrite(\"after\")", "{\n%s\n}", "x = 1\n%s", "%s ; trailing", "\t%s\n\n"):
+            add(frame % b, "rejected inputs with nothing before them", nolex=True)
     for depth in ([10, 100, 1000] if tier == "quick" else [10, 100, 1000, 5000, 10000]):
         add("(" * depth + "1" + ")" * depth, "nesting ladder", nolex=depth > 1000)
         add("[" * depth + "1" + "]" * depth, "nesting ladder", nolex=depth > 1000)
